@@ -37,6 +37,9 @@ def configs(tier):
             out.append(dict(kind="array", shape=shape, corr=c))
             out.append(dict(kind="kinds", shape=shape, corr=c))
         out.append(dict(kind="constructor", shape=shape))
+        for dt in ("uint8", "uint16", "float32"):
+            for c in ("type_float", "rotation_neutral", "drift_inactive"):
+                out.append(dict(kind="dtypes", shape=shape, dtype=dt, corr=c))
     return out
 
 
@@ -121,6 +124,8 @@ def body(cfg):
 
     shape = tuple(cfg["shape"])
     corr, oracle, upd = make_correction(darsia, cfg["corr"], shape) if cfg["kind"] != "constructor" else (None, None, None)
+    if cfg["kind"] == "dtypes" and cfg["corr"] == "drift_inactive":
+        corr = darsia.DriftCorrection(base=np.zeros(shape), config={"active": False})
     dims = [S.real("d0", lo="1/10", hi=10), S.real("d1", lo="1/10", hi=10)]
     org = [S.real("o0", lo=-5, hi=5), S.real("o1", lo=-5, hi=5)]
     if cfg["kind"] == "array":
@@ -146,6 +151,26 @@ def body(cfg):
                 im = darsia.Image(a.copy(), dimensions=list(dims), origin=list(org), scalar=False)
             out = corr(im)
             S.claim(f"{kind}_result_is_same_kind_with_corrected_pixels", S.and_(type(out) is type(im), out is not im, S.eq(out.img, oracle(a)), S.eq(im.img, a)))
+        return
+    if cfg["kind"] == "dtypes":
+        # concrete pixel values of a non-float64 dtype: the series result is the per-slice correction
+        # (values AND dtype), with and without overwrite
+        import skimage
+
+        dt = np.dtype(cfg["dtype"])
+        rng = np.random.default_rng(3)
+        T = 2
+        raw = (rng.integers(0, 200, size=shape + (T,)).astype(dt) if dt.kind == "u" else rng.uniform(0, 1, size=shape + (T,)).astype(dt))
+        for ow in (False, True):
+            im = darsia.Image(raw.copy(), dimensions=[1.0, 2.0], scalar=True, series=True, time=[0.0, 1.0])
+            out = corr(im, overwrite=ow)
+            sl = [corr.correct_array(raw[..., t].copy()) for t in range(T)]
+            exp = np.stack(sl, axis=2)
+            S.claim(f"series_of_{cfg['dtype']}_equals_per_slice_correction_overwrite_{ow}", bool(out.img.dtype == exp.dtype and out.img.shape == exp.shape and np.array_equal(out.img, exp)))
+            if cfg["corr"] == "type_float":
+                S.claim(f"type_correction_promotes_values_overwrite_{ow}", bool(np.allclose(out.img, skimage.img_as_float(raw))))
+            if not ow:
+                S.claim("input_series_untouched", bool(np.array_equal(im.img, raw) and im.img.dtype == dt))
         return
     if cfg["kind"] == "constructor":
         # corrections passed to the Image constructor are applied in order, in place
